@@ -14,6 +14,11 @@ class NotEncodable(Exception):
     pass
 
 
+class _ForkOnSelect(Exception):
+    def __init__(self, cond):
+        self.cond = cond
+
+
 class Ptr:
     __slots__ = ('obj', 'off')
 
@@ -49,6 +54,8 @@ class Obj:
         self.overlay = None  # array: concrete-offset unguarded writes (fast path while wlog is empty)
         self.wlog = None     # array: ordered list of (off, cells, guard) once a symbolic or guarded write happened
         self.base = None     # symbolic address of offset 0 (for ptrtoint), or int
+        self.bound = None    # array objects: symbolic size in bytes (None = unbounded)
+        self.freed = False
         self.live = True
 
     def clone(self):
@@ -59,6 +66,8 @@ class Obj:
         o.wlog = list(self.wlog) if self.wlog is not None else None
         o.base = self.base
         o.live = self.live
+        o.bound = self.bound
+        o.freed = self.freed
         return o
 
 
@@ -300,6 +309,7 @@ class Executor:
             return p
         # raw integer: try to match object bases
         p = sym.nsimp(p)
+        mentioning = []
         for oid, o in st.objs.items():
             if o.base is None:
                 continue
@@ -308,6 +318,11 @@ class Executor:
                 return Ptr(oid, d)
             if not isinstance(o.base, int) and not _mentions(d, o.base):
                 return Ptr(oid, d)
+            if not isinstance(o.base, int) and not isinstance(p, int) and _mentions(p, o.base):
+                mentioning.append((oid, d))
+        if len(mentioning) == 1:
+            # an address computed from exactly one object's base (e.g. rounded up by std::align): an offset into that object
+            return Ptr(mentioning[0][0], mentioning[0][1])
         if isinstance(p, int) and p == 0:
             return Ptr(0, 0)
         raise NotEncodable('cannot resolve pointer %s' % (p,))
@@ -322,6 +337,9 @@ class Executor:
         if not o.live:
             st.oblige('ub:use-after-free', True, what)
         if o.kind == 'array':
+            if o.bound is not None:
+                st.oblige('ub:out-of-bounds', b_not(b_and(sym.ule(off, o.bound, 64), sym.ule(sym.add(off, n, 64), o.bound, 64))),
+                          '%s of %d bytes outside the %s block' % (what, n, o.name))
             return [self.array_byte(o, sym.add(off, k, 64)) for k in range(n)]
         # bytes
         if isinstance(off, int):
@@ -375,6 +393,12 @@ class Executor:
                 c = a == z3.BitVecVal(ka, 64)
                 v, p = sym.ite(c, kv, v, 8), sym.b_ite(c, kp, p)
         for woff, cells, g in o.wlog:
+            if isinstance(cells, tuple) and cells[0] == 'havoc':
+                _, ln, harr = cells
+                d = sym.sub(a, woff, 64)
+                c = b_and(g, sym.ult(d, ln, 64))
+                v, p = sym.ite(c, z3.Select(harr, bv(a, 64)), v, 8), sym.b_ite(c, False, p)
+                continue
             n = len(cells)
             d = sym.nsimp(sym.sub(a, woff, 64))
             if isinstance(d, int):
@@ -404,6 +428,9 @@ class Executor:
             for c in cells:
                 if isinstance(c[0], tuple):
                     raise NotEncodable('pointer stored to caller memory')
+            if o.bound is not None:
+                st.oblige('ub:out-of-bounds', b_and(guard, b_not(b_and(sym.ule(off, o.bound, 64), sym.ule(sym.add(off, n, 64), o.bound, 64)))),
+                          '%s of %d bytes outside the %s block' % (what, n, o.name))
             if isinstance(off, int) and guard is True and not o.wlog:
                 for k, c in enumerate(cells):
                     o.overlay[(off + k) & M(64)] = c
@@ -842,7 +869,21 @@ class Executor:
                 c = self.val(st, fr, ins.x, ins.ops[0])
                 a = self.val(st, fr, ins.ty, ins.ops[1])
                 b = self.val(st, fr, ins.ty, ins.ops[2])
-                env[ins.dst] = self.select(ins.ty, c, a, b)
+                try:
+                    env[ins.dst] = self.select(ins.ty, c, a, b)
+                except _ForkOnSelect as fk:
+                    # the two arms are pointers of different provenance (e.g. a block vs null): split the path on the condition
+                    if len(a) != 1:
+                        raise NotEncodable('vector select between pointers into different objects')
+                    cond = fk.cond
+                    st2 = st.clone()
+                    st2.pc.append(z3.Not(cond))
+                    st2.frames[-1].env[ins.dst] = [(b[0][0], b_or(c[0][1], b[0][1]))]
+                    work.append(st2)
+                    st.pc.append(cond)
+                    fr = st.frames[-1]
+                    env = fr.env
+                    env[ins.dst] = [(a[0][0], b_or(c[0][1], a[0][1]))]
             elif op == 'shufflevector':
                 ty, idx = ins.x
                 a = self.val(st, fr, ty, ins.ops[0])
@@ -1055,7 +1096,7 @@ class Executor:
                 elif isinstance(x, Ptr) and isinstance(y, Ptr) and x.obj == y.obj:
                     out.append((Ptr(x.obj, sym.ite(t, x.off, y.off, 64)), b_or(cp, sym.b_ite(t, px, py))))
                 else:
-                    raise NotEncodable('select between pointers into different objects')
+                    raise _ForkOnSelect(t)
                 continue
             if w is None:
                 w = x.size() if not isinstance(x, int) else (y.size() if not isinstance(y, int) else 64)
